@@ -79,3 +79,124 @@ def check(chk, facts):
         bad = sorted(set(swapped) - set(COMMUTATIVE))
         chk.ob(rule, "commutative", bool(sws) and not bad, "operands are swapped for %s%s" % (sorted(swapped), (" — %s is not commutative" % bad) if bad else " (all commutative in the language)"), where=f.where(), fn=f.name,
                key="%s:commutative:%s" % (rule, ",".join(bad)))
+
+
+def residual_guard_kept(chk, facts):
+    """eval_if: when the guard is a residual, the answer still contains the guard — every exit of that arm is the rebuilt
+    if-then-else (the guard may error or be non-boolean after substitution, so it cannot be dropped even if both branches agree)."""
+    from lib.slice import leaf_producers
+    rule = "C13.RESIDUAL"
+    f = get_fn(chk, facts, rule, EV + "eval_if")
+    PV = facts.adts.get("cedar_policy_core::ast::partial_value::PartialValue")
+    if f is None or PV is None:
+        return
+    sws = sorted(shape.variant_switches(f, "ast::partial_value::PartialValue"), key=lambda s_: cfg.dominators(f).get(s_[0], 0) if False else s_[0])
+    # the switch on the evaluated guard: the first PartialValue switch from the entry
+    idom = cfg.dominators(f)
+    first = None
+    for sw in sws:
+        if all(cfg.dominates(f, sw[0], o[0]) for o in sws):
+            first = sw
+    if first is None:
+        chk.lost(rule, "match on the evaluated guard in eval_if")
+        return
+    b, scrut, arms, other = first
+    res_vi = [i for i, v in enumerate(PV["variants"]) if v["name"] == "Residual"][0]
+    if res_vi not in arms:
+        chk.lost(rule, "Residual arm of the guard in eval_if")
+        return
+    region = cfg.dominated_region(f, arms[res_vi])
+    oks = protocol.ok_blocks(f) & region
+    ites = {bb for bb, t in f.calls() if bb in region and callee(t).split("::")[-1] in ("ite", "ite_arc") and "ast::expr::Expr" in callee(t)}
+    ok = bool(oks) and bool(ites) and cfg.must_pass(f, arms[res_vi], oks, ites)
+    # and the guard of the rebuilt node is the residual guard itself
+    guard_ok = False
+    L = shape.Labels(f, None, shape.variant_field_seed("ast::partial_value::PartialValue"))
+    for bb, t in f.calls():
+        if bb in ites:
+            guard_ok = guard_ok or any(x == "Residual.0" for x in L.operand_labels(t[2][0]))
+    chk.ob(rule, "eval_if:guard-kept", ok and guard_ok, "with a residual guard every answer of eval_if is the rebuilt if-then-else (%s) whose guard is that residual (%s)" % (ok, guard_ok), where=f.where(), fn=f.name,
+           key="%s:eval_if:guard-kept" % rule)
+
+
+def store_mode_kept(chk, facts):
+    """A partial entity store stays partial through add / upsert / remove: every Entities value built by a method of an existing
+    store takes its `mode` from that store (only `partial()` sets it). Otherwise absent entities flip from unknown to non-existent."""
+    rule = "C13.MODE"
+    E = "cedar_policy_core::entities::Entities"
+    n = 0
+    for name in facts.unit_fns("cedar_policy_core.lib"):
+        if not name.startswith(E + "::") or "closure" in name or "::test" in name:
+            continue
+        f = facts.fns[name]
+        if f.nargs < 1 or not (f.locals[1].endswith("entities::Entities") or f.locals[1].endswith("entities::Entities>") or "entities::Entities" in f.locals[1]):
+            continue
+        if not (f.locals[1] == E or f.locals[1] in ("&" + E, "&mut " + E)):
+            continue
+        aggs = [(b, s_) for b, s_ in f.stmts() if s_[0] == "a" and s_[2][0] == "agg" and s_[2][1][0] == "adt" and s_[2][1][1] == E]
+        for b, s_ in aggs:
+            names = s_[2][1][3]
+            if "mode" not in names:
+                continue
+            o = s_[2][2][names.index("mode")]
+            from lib.slice import leaf_producers
+            src = leaf_producers(f, o)
+            from_self = any(x.startswith("place:") and x.endswith("mode") for x in src) and "param:1" in src
+            setter = name.endswith("::partial")
+            n += 1
+            chk.ob(rule, short(name).split("::")[-1], from_self or setter, "%s builds a store whose mode is %s" % (short(name).split("::")[-1], "the mode of the store it was called on" if from_self else
+                   ("set by the designated setter" if setter else "NOT taken from the store it was called on (%s): a partial store silently becomes concrete" % sorted(src))),
+                   where=f.where(s_[3]), fn=name, key="%s:%s" % (rule, name))
+    chk.ob(rule, "scan", True, "%d store-rebuilding sites in methods of Entities examined" % n)
+
+
+ALLOWED_EARLY = ("is_projectable", "short_circuit_value_and_residual", "short_circuit_residual_and_value", "short_circuit_two_typed_residuals")
+
+
+def residual_sticky(chk, facts):
+    """In partial_interpret_internal, once the first-evaluated operand of a node is a residual, the node's answer is a rebuilt residual
+    node: a concrete answer there is allowed only through the audited short cuts (typed-unknown comparison, projectable records,
+    the entity-type annotation of an unknown for `is`)."""
+    from lib import hom, panics
+    rule = "C13.RESIDUAL"
+    f = get_fn(chk, facts, rule, EV + "partial_interpret_internal")
+    EK = facts.adts.get("cedar_policy_core::ast::expr::ExprKind")
+    PV = facts.adts.get("cedar_policy_core::ast::partial_value::PartialValue")
+    if f is None or EK is None or PV is None:
+        return
+    from rules.residual_hom import ctor, SKIP
+    ev = hom.arm_events(facts, f, "ast::expr::ExprKind", ctor)
+    if ev is None:
+        return
+    res_vi = [i for i, v in enumerate(PV["variants"]) if v["name"] == "Residual"][0]
+    oks_all = protocol.ok_blocks(f)
+    n = 0
+    for vi, arm in sorted(ev["arms"].items()):
+        vn = EK["variants"][vi]["name"]
+        if vn not in ("And", "Or", "UnaryApp", "Like", "Is", "HasAttr"):
+            continue
+        region = arm["region"]
+        sws = [sw for sw in shape.variant_switches(f, "ast::partial_value::PartialValue") if sw[0] in region and res_vi in sw[2]]
+        if not sws:
+            continue
+        first = [sw for sw in sws if all(cfg.dominates(f, sw[0], o[0]) for o in sws)]
+        if not first:
+            continue
+        b, scrut, arms, other = first[0]
+        rreg = cfg.dominated_region(f, arms[res_vi])
+        ctors = {bb for bb in rreg if f.blocks[bb]["t"][0] == "call" and ctor(callee(f.blocks[bb]["t"]), None) and ctor(callee(f.blocks[bb]["t"]), None)[2:] not in SKIP}
+        bad = []
+        for ob in sorted(oks_all & rreg):
+            if cfg.must_pass(f, arms[res_vi], {ob}, ctors):
+                continue
+            guards = [panics.cond_desc(f, d) for d, taken in cfg.guard_edges(f, ob) if d in rreg]
+            if any(any(a in g for a in ALLOWED_EARLY) for g in guards):
+                continue
+            # `unknown(.., type T) is T'` is decided by the annotation: the residual is an Unknown node with an entity-type annotation
+            if vn == "Is" and any(g.startswith("disc:Type<") for g in guards) and any(g.startswith("disc:ExprKind<") for g in guards):
+                continue
+            bad.append((f.blocks[ob]["st"][-1][3] if f.blocks[ob]["st"] else None, guards[:3]))
+        n += 1
+        chk.ob(rule, "sticky:%s" % vn, not bad, "%s: with a residual first operand every answer is a rebuilt residual node%s" % (vn, "" if not bad else " — except at %s (a concrete answer drops the residual, which may still error after substitution)" % bad),
+               where=f.where(bad[0][0] if bad else None), fn=f.name, key="%s:sticky:%s" % (rule, vn))
+    chk.floor(rule, "arms with a residual first operand", n, 5)
